@@ -40,6 +40,7 @@ def run(ctx):
     r8_cache_per_environment(ctx)
     r9_reservoir_zero_uniform(ctx)
     r10_scalar_contexts(ctx)
+    r11_counts(ctx)
     c04.r6_replay_buffer(ctx, rule="C09.R1")
 
 
@@ -460,6 +461,67 @@ def r10_scalar_contexts(ctx, rule="C09.R10"):
     ctx.ob(rule, EF, "Where._context_len", strs[0] if strs else cl, "a string context counts as one feature (tested before len() is applied)", ok, stmt="Where string context")
 
 
+def r11_counts(ctx, rule="C09.R11"):
+    """Take and Slice in the cardinality domain: the input is N opaque items, only counts are tracked."""
+    from ..cardinality import CardEval, Elems, Opaque, Unmodelled, length
+    ctx.rule(rule, "cardinality abstract interpretation of Take.filter, Slice.filter and Batch._batched for N = 0..8 (12) input items: batching partitions its input;  Take(c) yields min(c, N) items (all N for c None), "
+                   "strict Take yields c items or none; Slice(start, stop, step) yields as many items as range(N)[start:stop:step] has")
+    tk = ctx.fn(PF, "Take.filter")
+    P = tk.args.args[1].arg
+    bad, unm, n = [], None, 0
+    for N in range(0, 9):
+        for c in (None, 0, 1, 3, 8, 12):
+            for strict in (False, True):
+                n += 1
+                try:
+                    r = CardEval({"self": Opaque(), P: Elems(N), "self._count": c, "self._strict": strict}).run(tk.body)
+                    got = length(r)
+                except Unmodelled as e:
+                    unm = str(e)
+                    continue
+                want = (N if c is None else min(c, N)) if not strict else ((N if c is None else c) if (c is None or N >= c) else 0)
+                if got != want:
+                    bad.append({"N": N, "count": c, "strict": strict, "yielded": got, "expected": want})
+    ctx.ob(rule, PF, "Take.filter", tk, "Take yields the prefix of the requested size (strict: all or nothing) for every N <= 8", None if unm else not bad,
+           detail={"configurations": n, "unmodelled": unm, "first_mismatches": bad[:3]}, stmt="Take counts")
+    sl = ctx.fn(PF, "Slice.filter")
+    P = sl.args.args[1].arg
+    bad, unm, n = [], None, 0
+    for N in range(0, 9):
+        for a in (None, 0, 2, 9):
+            for b in (None, 0, 3, 9):
+                for st in (1, 2, 3):
+                    n += 1
+                    try:
+                        r = CardEval({"self": Opaque(), P: Elems(N), "self._start": a, "self._stop": b, "self._step": st}).run(sl.body)
+                        got = length(r)
+                    except Unmodelled as e:
+                        unm = str(e)
+                        continue
+                    want = len(range(N)[a:b:st])
+                    if got != want:
+                        bad.append({"N": N, "start": a, "stop": b, "step": st, "yielded": got, "expected": want})
+    ctx.ob(rule, PF, "Slice.filter", sl, "Slice yields as many items as the corresponding Python slice for every N <= 8", None if unm else not bad,
+           detail={"configurations": n, "unmodelled": unm, "first_mismatches": bad[:3]}, stmt="Slice counts")
+    bt = ctx.fn(EF, "Batch._batched")
+    ps = [a.arg for a in bt.args.args]
+    bad, unm, n = [], None, 0
+    for N in range(0, 13):
+        for size in (1, 2, 3, 5, 12, 20):
+            n += 1
+            ce = CardEval({ps[0]: Opaque(), ps[1]: Elems(N), ps[2]: size})
+            try:
+                ce.run(bt.body)
+                sizes = [length(y) for y in ce.yields]
+            except Unmodelled as e:
+                unm = str(e)
+                continue
+            if not (sum(sizes) == N and all(0 < z <= size for z in sizes) and all(z == size for z in sizes[:-1])):
+                bad.append({"N": N, "batch_size": size, "batches": sizes})
+    ctx.ob(rule, EF, "Batch._batched", bt, "batching partitions the interactions into full batches plus one shorter last batch (sizes sum to N, none empty) for every N <= 12", None if unm else not bad,
+           detail={"configurations": n, "unmodelled": unm, "first_mismatches": bad[:3]}, stmt="Batch partitions")
+
+
 def r7_sort_keys(ctx):
     ctx.rule("C09.R7", "Sort keeps the caller's key order: the keys are stored as given (flattened, not sorted/de-duplicated) and the sort key tuple "
                        "is built by iterating them in that order")
@@ -479,6 +541,9 @@ def r7_sort_keys(ctx):
 
 
 CONTROLS = [
+    ("batching drops a short last batch", EF, M.replace_expr("Batch._batched", "batch", "len(batch) == n", nth=1), "C09.R11"),
+    ("strict Take accepts a short prefix", PF, M.replace_expr("Take.filter", "len(out) < self._count", "len(out) < self._count - 1"), "C09.R11"),
+    ("Slice ignores its step", PF, M.replace_expr("Slice.filter", "islice(items, self._start, self._stop, self._step)", "islice(items, self._start, self._stop)"), "C09.R11"),
     ("Sort treats every context as a sequence", EF, M.replace_expr("Sort.filter", "tuple(interaction['context']) if is_row(interaction['context']) else (interaction['context'],)", "tuple(interaction['context'])"), "C09.R10"),
     ("Where counts the characters of a string context", EF, M.delete_stmt("Where._context_len", M.text_has("if isinstance(context, str): return 1")), "C09.R10"),
     ("Reservoir takes log of a uniform that may be 0", PF, M.replace_expr("Reservoir.filter", "log(r2 or 2 ** (-31), 1 - W)", "log(r2, 1 - W)"), "C09.R9"),
